@@ -624,8 +624,9 @@ func Run(sc Scenario) *Result {
 	if pubsOK && !closed {
 		deadline := time.Now().Add(waitLong)
 		for {
-			if len(PendingGoals(rec.Snapshot(), sc)) == 0 {
-				rec.Log("goals")
+			// the marker must describe the log exactly as it is when it is written: a consumer's nested Publish is not one of the
+			// publishers waited for above and may log a new message at any moment (false alarm of sweep 8, C04 thorough seed 51)
+			if rec.LogIf(func(evs []Event) bool { return len(PendingGoals(evs, sc)) == 0 }, "goals") {
 				break
 			}
 			if time.Now().After(deadline) {
